@@ -181,10 +181,13 @@ impl ReceiveChannelUnreliable {
             .entry(slice.message_id)
             .or_insert_with(|| SliceConstructor::new(slice.message_id, slice.num_slices));
 
+        // The reserved memory was accounted with the slice count of the constructor,
+        // a later slice may announce a different count
+        let num_slices = slice_constructor.num_slices;
         if let Some(message) = slice_constructor.process_slice(slice.slice_index, &slice.payload)? {
             self.slices.remove(&slice.message_id);
             self.slices_last_received.remove(&slice.message_id);
-            self.memory_usage_bytes -= slice.num_slices * SLICE_SIZE;
+            self.memory_usage_bytes -= num_slices * SLICE_SIZE;
             self.memory_usage_bytes += message.len();
             self.messages.push_back(message);
         } else {
